@@ -716,7 +716,7 @@ class Model():
 
         if association.extras:
             # Add optional metadata to dict
-            association_dict['extras'] = association.extras
+            association_dict['extras'] = association.extras.as_dict()
 
         return association_dict
 
@@ -832,7 +832,8 @@ class Model():
 
         # Reconstruct the associations
         for assoc_entry in serialized_object.get('associations', []):
-            assoc = list(assoc_entry.keys())[0]
+            # The entry holds the association type and, optionally, extras
+            assoc = next(key for key in assoc_entry if key != 'extras')
             assoc_fields = assoc_entry[assoc]
             association = getattr(model.lang_classes_factory.ns, assoc)()
 
@@ -844,9 +845,10 @@ class Model():
                     [model.get_asset_by_id(int(id)) for id in targets]
                 )
 
-            #TODO Properly handle extras
-
             model.add_association(association)
+
+            if 'extras' in assoc_entry:
+                association.extras = assoc_entry['extras']
 
         # Reconstruct the attackers
         if 'attackers' in serialized_object:
